@@ -103,6 +103,9 @@ def is_pure_event(e):
         return False
     d = c.get("def") or ""
     tr = c.get("trait") or ""
+    if not e["args"] and nm in ("new", "default") and (d.startswith("heapless::") or (c.get("self_ty") or "").startswith("heapless::") or
+                                                       ((c.get("args") or [""])[0] or "").startswith("heapless::")):
+        return True          # an empty fixed-capacity container: a value
     if nm in PURE_NAMES and (d.startswith(PURE_PREFIX) or tr.startswith(PURE_PREFIX)):
         # trait methods of core traits on *local or generic* types (Deref on a user type, Iterator::next on an unknown iterator) are not
         # known to be pure; core traits on core types are
@@ -115,6 +118,11 @@ def is_pure_event(e):
     if d.startswith("crc::") and nm == "finalize":
         return True          # Digest::finalize(self) computes the checksum value; it has no effect
     return False
+
+
+def _alias(nm):
+    """accessors that denote the same value"""
+    return {"as_mut_ptr": "as_ptr"}.get(nm, nm)
 
 
 class NeedSplit(Exception):
@@ -414,9 +422,9 @@ class CT:
             if e is not None:
                 if (x[2] == e["key"] and len(x[3]) == len(e["args"]) and tuple(norm(a) for a in x[3]) != tuple(norm(a) for a in e["args"])):
                     # a term derived from this call with other arguments (e.g. a sub-slice of from_raw_parts(p, n)): print the term's own
-                    return "%s(%s)" % (short(x[2]).rsplit("::", 1)[-1], ", ".join(r(a) for a in x[3]))
+                    return "%s(%s)" % (_alias(short(x[2]).rsplit("::", 1)[-1]), ", ".join(r(a) for a in x[3]))
                 return self.pure_text(e, depth)
-            return "%s(%s)" % (short(x[2]).rsplit("::", 1)[-1], ", ".join(r(a) for a in x[3]))
+            return "%s(%s)" % (_alias(short(x[2]).rsplit("::", 1)[-1]), ", ".join(r(a) for a in x[3]))
         if k == "havoc":
             n = self.ids.get(x[1])
             if n is None:
@@ -479,6 +487,16 @@ class CT:
                     return "%s[%s..%s]" % (base, lo, hi)
         if nm in ("wrapping_mul", "wrapping_add", "min", "max", "saturating_add", "saturating_mul") and len(args) == 2:
             args = sorted(args)
+        if nm == "as_mut_ptr":
+            nm = "as_ptr"           # same address; mutability of the pointer is a type-level matter
+        if nm == "default" and (c.get("trait") or "").endswith("default::Default") and not args:
+            # `Default::default()` of a std / heapless collection is its `new()`
+            st = re.sub(r"<.*$", "", c.get("self_ty") or (c.get("args") or [""])[0] or "")
+            if re.match(r"^(std|alloc|heapless)::(.*::)?(Vec|String|VecDeque|HashSet|HashMap|BTreeMap|BTreeSet)$", st):
+                return "%s%s::new()" % ("heapless::" if st.startswith("heapless::") else "", st.split("::")[-1])
+        if nm == "new" and not c.get("trait") and not args and (c.get("def") or "").startswith("heapless::"):
+            segs = [x for x in re.sub(r"<[^<>]*>", "", re.sub(r"<[^<>]*>", "", c.get("def") or "")).split("::") if x]
+            return "heapless::%s::new()" % (segs[-2] if len(segs) >= 2 else "Vec")
         if nm in ("new", "default", "with_capacity") and not c.get("trait"):
             segs = re.sub(r"<[^<>]*>", "", re.sub(r"<[^<>]*>", "", c.get("def") or nm)).split("::")
             segs = [x for x in segs if x]
